@@ -371,7 +371,15 @@ fn c05_concrete(_ctx: &Ctx, r: &mut Report) {
         ("", "App", "App"),
         ("", "&(App)", "App"),
     ];
-    for (g, ty, want_self) in shapes {
+    let mut shapes2: Vec<(String, &str, &str, Vec<&str>)> = shapes.iter().map(|(g, t, w)| (g.to_string(), *t, *w, vec![])).collect();
+    for (_, ty, want_self) in shapes {
+        shapes2.push(("<V: Into<i32>>".to_string(), ty, want_self, vec!["V : Into < i32 >"]));
+        shapes2.push(("<K, const N: usize>".to_string(), ty, want_self, vec!["K", "const N : usize"]));
+    }
+    for (g, ty, want_self, want_generics) in shapes2 {
+        if g.contains('<') && ty.contains("'a") && !g.contains("'a") {
+            continue;
+        }
         for is_async in [false, true] {
             let item = format!("{} fn f{}(deps: {}, a: i32) -> i32 {{ a }}", if is_async { "async" } else { "" }, g, ty);
             let input = format!("#[entrait(Tr)] {}", item);
@@ -395,6 +403,10 @@ fn c05_concrete(_ctx: &Ctx, r: &mut Report) {
                         return;
                     }
                 };
+                let tg: Vec<String> = tr.generics.params.iter().map(|p| tt_string(p)).collect();
+                if tg != want_generics.iter().map(|s| s.to_string()).collect::<Vec<_>>() {
+                    r.fail("trait-generics", &input, format!("leaf trait generics [{}], the function's own generics are [{}]", tg.join(", "), want_generics.join(", ")));
+                }
                 let nested: Vec<String> = tr.attrs.iter().map(|a| tt_string(a)).filter(|s| s.contains("entrait :: entrait")).collect();
                 if nested != vec!["# [:: entrait :: entrait (unimock = false , mockall = false)]".to_string()] {
                     r.fail("nested-attribute", &input, format!("leaf trait must carry exactly #[::entrait::entrait(unimock = false, mockall = false)], found {:?}", nested));
@@ -604,6 +616,54 @@ fn c18_attrs(_ctx: &Ctx, r: &mut Report) {
                 let exp: Vec<String> = want.iter().filter(|s| is_at(s)).cloned().collect();
                 if got != exp {
                     r.fail("impl-attributes", &input, format!("generated impl carries {:?}, expected only {:?}", got, exp));
+                }
+            }
+        });
+    }
+    // parameter attributes are stripped from every generated signature, in every mode and position
+    for (attr, item) in [
+        ("Tr", "fn f(#[a0] deps: &impl Any, #[a1] x: i32, #[a2] y: i32, #[a3] z: i32) {}"),
+        ("Tr, no_deps", "fn f(#[a1] x: i32, #[a2] y: i32) {}"),
+        ("Tr", "mod m { pub fn f(#[a0] deps: &impl Any, #[a1] x: i32, #[a2] y: i32) {} pub fn g(#[b0] deps: &impl Any, #[b1] x: i32) {} }"),
+        ("", "impl TrImpl for X { fn f<D>(#[a0] deps: &D, #[a1] x: i32, #[a2] y: i32, #[a3] z: i32) {} }"),
+        ("ref", "impl TrImpl for X { fn f<D>(#[a0] deps: &D, #[a1] x: i32, #[a2] y: i32, #[a3] z: i32) {} }"),
+        ("dyn", "impl TrImpl for X { async fn f<D>(#[a0] deps: &D, #[a1] x: i32, #[a2] y: i32) {} }"),
+    ] {
+        let input = format!("#[entrait({})] {}", attr, item);
+        r.guarded(&input, |r| {
+            let out = expand(Variant::Entrait, attr, item);
+            if let Some(e) = compile_error_of(&out) {
+                r.fail("unexpected-error", &input, e);
+                return;
+            }
+            let file = match parse_file(&out) {
+                Ok(f) => f,
+                Err(e) => {
+                    r.fail("unparsable", &input, e);
+                    return;
+                }
+            };
+            let items: &Vec<syn::Item> = mod_items(&file.items, "m").unwrap_or(&file.items);
+            let mut sigs: Vec<(String, &syn::Signature)> = vec![];
+            for it in items {
+                match it {
+                    syn::Item::Trait(t) => sigs.extend(trait_methods(t).into_iter().map(|m| (format!("trait {}::{}", t.ident, m.sig.ident), &m.sig))),
+                    syn::Item::Impl(i) if i.trait_.is_some() => sigs.extend(impl_methods(i).into_iter().map(|m| (format!("impl method {}", m.sig.ident), &m.sig))),
+                    _ => {}
+                }
+            }
+            if sigs.is_empty() {
+                r.fail("shape", &input, "no generated signatures found".into());
+            }
+            for (what, sig) in sigs {
+                for (i, a) in sig.inputs.iter().enumerate() {
+                    let n = match a {
+                        syn::FnArg::Typed(p) => p.attrs.len(),
+                        syn::FnArg::Receiver(rc) => rc.attrs.len(),
+                    };
+                    if n != 0 {
+                        r.fail("param-attributes", &input, format!("{}: input {} still carries an attribute: `{}`", what, i, tt_string(a)));
+                    }
                 }
             }
         });
